@@ -105,6 +105,8 @@ class Library:
         B['list'] = TypeNative('list', mk_list, lambda v: isinstance(v, VList))
 
         def mk_tuple(it, x=()):
+            if getattr(x, 'immutable_tuple', False) and x.concrete_len(it) is None:      # tuple(t) of a symbolic-arity tuple view is t
+                return x
             return tuple(it.iterate(x))
         B['tuple'] = TypeNative('tuple', mk_tuple, lambda v: isinstance(v, tuple))
 
